@@ -19,6 +19,7 @@ ID = "C08"
 ENCODED = [
     "tdgl.solver.solver:TDGLSolver.__init__",
     "tdgl.solver.solver:TDGLSolver.update_mu_boundary",
+    "tdgl.solver.solver:TDGLSolver.update_applied_vector_potential",
     "tdgl.device.device:Device.Bc2",
     "tdgl.device.device:Device.A0",
     "tdgl.device.device:Device.K0",
@@ -119,7 +120,18 @@ def body(H, case):
         # the screening weights carry one power of the length unit (they are divided by distances
         # in the same unit inside the kernel): compare them in units of xi
         w = None if solver.areas is None else solver.areas / (XI_UM * LEN[lu])
-        results[(lu, fu, cu)] = dict(A=solver.current_A_applied, mub=solver.mu_boundary, areas=w, K0=K0, solver=solver, dev=dev)
+        # the same field, ramped in time (the solver re-evaluates and re-scales it at every step)
+        import tdgl
+        from tdgl.sources.constant import constant_field_vector_potential
+
+        def ramped(x, y, z, *, t, _B=B_mT * FLD[fu], _fu=fu, _lu=lu):
+            return constant_field_vector_potential(x, y, z, Bz=_B, field_units=_fu, length_units=_lu) * (1.0 + t)
+
+        solver_t = S.make_solver(H, dev, S.make_options(field_units=fu, current_units=cu, include_screening=case.screening),
+                                 A=tdgl.Parameter(ramped, time_dependent=True), currents=currents, validate=False)
+        t_later = H.real("t_later", lo=0.0, hi=3.0)
+        results[(lu, fu, cu)] = dict(A=solver.current_A_applied, mub=solver.mu_boundary, areas=w, K0=K0, solver=solver, dev=dev,
+                                     A_t0=solver_t.current_A_applied, A_t=solver_t.update_applied_vector_potential(t_later), t=t_later)
     ref = results[("um", "mT", "uA")]
     ne = len(base.mesh.edge_mesh.edges)
     for key, r in results.items():
@@ -129,12 +141,22 @@ def body(H, case):
         for e in range(ne):
             for c in range(2):
                 close(H, f"{tag}: dimensionless A on edge {e} component {c}", K.at(r["A"], e, c), K.at(ref["A"], e, c))
+        for e in range(ne):
+            for c in range(2):
+                close(H, f"{tag}: time-dependent drive, dimensionless A at a later time on edge {e} component {c}", K.at(r["A_t"], e, c), K.at(ref["A_t"], e, c))
         for k in range(len(K.elems(ref["mub"]))):
             close(H, f"{tag}: terminal current density on boundary edge {k}", K.at(r["mub"], k), K.at(ref["mub"], k))
         close(H, f"{tag}: physical current-density factor K0", r["K0"], ref["K0"])
         if case.screening:
             for i in range(len(base.mesh.sites)):
                 close(H, f"{tag}: screening weight of cell {i}", K.at(r["areas"], i), K.at(ref["areas"], i))
+    # in every unit system: the ramped drive at time t is (1 + t) x the static one, at construction and later
+    for key, r in results.items():
+        tag = "/".join(key)
+        for e in range(ne):
+            for c in range(2):
+                close(H, f"{tag}: ramped drive at construction = static drive on edge {e} component {c}", K.at(r["A_t0"], e, c), K.at(r["A"], e, c))
+                close(H, f"{tag}: ramped drive at time t = (1 + t) x static drive on edge {e} component {c}", K.at(r["A_t"], e, c), (1.0 + r["t"]) * K.at(r["A"], e, c))
     if not case.flux:
         return
     # ---- flux identity on the reference system -------------------------------------------------------
